@@ -161,8 +161,8 @@ Call(f, args, tab) ==
                   ELSE IF Len(v.v) = 0 \/ ~(from < to) \/ from > StrBytes(v.v) \/ to > StrBytes(v.v) THEN None
                   ELSE LET a == CharsAt(v.v, from)
                            b == CharsAt(v.v, to) IN
-                       \* byte offsets inside a multi-byte character: str::slice panics
-                       IF a < 0 \/ b < 0 THEN EErr("panic:substring-inside-character")
+                       \* byte offsets inside a multi-byte character are out of range as well
+                       IF a < 0 \/ b < 0 THEN None
                        ELSE Some(StrV(SubSeq(v.v, a + 1, b), v)))
     [] f = "parse_int" ->
          ElementWise(args[1], LAMBDA v :
